@@ -417,6 +417,9 @@ def main(chk: core.Check, replay: typing.Optional[str] = None) -> int:
     handle_cases = gen_handle_cases(3 if chk.tier == 'quick' else 5) if not replay else []
     handle_impl = run_impl(handle_cases) if handle_cases else []
     handle_bad = [i for i, c in enumerate(handle_cases) if 'kinds' not in handle_impl[i] or not handle_order_ok(c, handle_impl[i]['kinds'])]
+    # the caller's list object must come back unchanged (it may be shared by several generators: repaired finding F-PP-LIST-MUTATED)
+    handle_bad += [i for i, c in enumerate(handle_cases) if c['handle']['given'] is not None and 'given_after' in handle_impl[i]
+                   and [kinds_tok([k]) for k in handle_impl[i]['given_after']] != [kinds_tok([k]) for k in c['handle']['given']]]
     default_cases = gen_default_cases(chk.rng, 300 if chk.tier == 'quick' else 6000) if not replay else []
     if replay and 'handle' in doc.get('case', {}):
         default_cases, cases = [doc['case']], []
@@ -523,8 +526,8 @@ def main(chk: core.Check, replay: typing.Optional[str] = None) -> int:
     elif handle_bad and not bad_oracle:
         c = handle_cases[handle_bad[0]]
         chk.violation({'case': c, 'implementation': handle_impl[handle_bad[0]], 'what': '_handle_post_processors does not place the trimmer '
-                       'before every limiter: whitespace-only lines then reach the limiter as non-empty and more than N consecutive '
-                       'empty lines can be written', 'broken': broken, 'n_failing': len(handle_bad)}, found_input=True)
+                       'before every limiter (whitespace-only lines then reach the limiter as non-empty and more than N consecutive '
+                       'empty lines can be written) or it changed the list object the caller passed in', 'broken': broken, 'n_failing': len(handle_bad)}, found_input=True)
     elif file_bad and not bad_oracle and not long_bad:
         c = file_cases[file_bad[0]]
         chk.violation({'case': c, 'expected_by_property': [oracle(f, c['pps']) for f in c['files']], 'implementation': file_impl[file_bad[0]],
